@@ -17,6 +17,9 @@ func genConcCase(rng *simrt.Rng, o *ConcOpts) *ConcCase {
 	if len(o.Executors) > 0 {
 		cfg.Executor = o.Executors[rng.Intn(len(o.Executors))]
 	}
+	if o.Ticker && cfg.withExpiry() && rng.Intn(2) == 0 {
+		cfg.Ticker = true
+	}
 	if o.HotKeys[1] > 0 {
 		cfg.Keys = o.HotKeys[0] + rng.Intn(o.HotKeys[1]-o.HotKeys[0]+1)
 	}
@@ -81,7 +84,7 @@ func genConcCase(rng *simrt.Rng, o *ConcOpts) *ConcCase {
 					op.Load.Stall = true
 				}
 			}
-			if o.AsyncClock && op.Kind == "advance" {
+			if op.Kind == "advance" && (o.AsyncClock || (o.AimAdvance && cfg.ExpD > 0 && rng.Intn(2) == 0)) {
 				// steps that land on / around the deadlines of entries written a moment ago
 				switch rng.Intn(7) {
 				case 0:
@@ -162,7 +165,49 @@ func genConcCase(rng *simrt.Rng, o *ConcOpts) *ConcCase {
 			}
 		}
 	}
+	if o.SweepCheck && rng.Intn(3) == 0 {
+		sweepDuel(rng, cc, pg)
+	}
 	return cc
+}
+
+// sweepDuel replaces the generated programs by a tiny scenario (C13's proviso "reads only ever
+// extend deadlines" in its concurrent form): an entry under expire-after-access is brought close
+// to its deadline, one task reads it (sampling the clock before the deadline), another task moves
+// the clock past the deadline and sweeps. Few operations, so the schedules in which the read's
+// deadline extension lands inside the sweep are a sizeable fraction of all schedules.
+func sweepDuel(rng *simrt.Rng, cc *ConcCase, pg *OpGen) {
+	cfg := &cc.Cfg
+	cfg.Expiry = "accessing"
+	cfg.ExpTbl = [3][]int64{}
+	cfg.ExpD = tickSlack*int64(2+rng.Intn(70)) + int64(rng.Intn(1000))
+	cfg.Keys = 1 + rng.Intn(2)
+	cc.Prefill = nil
+	for k := 0; k < cfg.Keys; k++ {
+		cc.Prefill = append(cc.Prefill, Op{Kind: "set", K: k, V: pg.newVal()})
+	}
+	reader := func() Op {
+		switch rng.Intn(4) {
+		case 0:
+			return Op{Kind: "setifabsent", K: 0, V: pg.newVal()}
+		case 1:
+			return Op{Kind: "getentry", K: 0}
+		}
+		return Op{Kind: "get", K: 0}
+	}
+	near := cfg.ExpD - 1 - int64(rng.Intn(4))
+	a := []Op{{Kind: "advance", D: near}, reader()}
+	if rng.Intn(2) == 0 {
+		a = append(a, reader())
+	}
+	b := []Op{{Kind: "advance", D: 1 + int64(rng.Intn(int(2*tickSlack)))}, {Kind: "cleanup"}}
+	if rng.Intn(2) == 0 {
+		b = append(b, Op{Kind: "advance", D: tickSlack + int64(rng.Intn(int(tickSlack)))}, Op{Kind: "cleanup"})
+	}
+	cc.Tasks = [][]Op{a, b}
+	if rng.Intn(2) == 0 {
+		cc.Tasks = append(cc.Tasks, []Op{reader()})
+	}
 }
 
 func (e *concEngine) Run(a *agg, spec *PropSpec, seed uint64) {
@@ -177,6 +222,9 @@ func (e *concEngine) Run(a *agg, spec *PropSpec, seed uint64) {
 	}
 	cc := genConcCase(&rng, o)
 	cc.Mode = &ConcMode{Lin: o.Lin, Rounds: o.Rounds, NoCleanup: o.NoCleanup, SweepCheck: o.SweepCheck, AsyncClock: o.AsyncClock}
+	if o.SweepCheck {
+		cc.Mode.FarSweep = rng.Intn(2) == 0
+	}
 	srng := simrt.NewRng(seed, 21)
 	if a.horizon < 200 {
 		a.horizon = 1500
@@ -232,6 +280,12 @@ func (e *concEngine) Run(a *agg, spec *PropSpec, seed uint64) {
 		}
 		a.st.Samples = append(a.st.Samples, map[string]any{"engine": "conc", "seed": seed, "config": cc.Cfg, "prefill_ops": len(cc.Prefill), "tasks": progs,
 			"strategy": out.Strategy, "scheduling_points": out.Steps, "context_switches": out.Switches, "first_deviations": out.Rec[:nd], "deviations": len(out.Rec)})
+	}
+	if out.Infra != "" {
+		if len(a.st.InfraErrors) < 5 {
+			a.st.InfraErrors = append(a.st.InfraErrors, fmt.Sprintf("seed %d: %s", seed, out.Infra))
+		}
+		return
 	}
 	rel, foreign := relevant(out.Viol, spec.ID)
 	mergeCounts(a.st.Foreign, foreign)
